@@ -106,10 +106,12 @@ func runOp(name string, hexArgs []string, dumpDir string) (reply string) {
 		panicked any
 		cov      string
 	)
-	cov = bracket(func() {
-		defer func() { panicked = recover() }()
-		render = run()
-	}, dumpDir)
+	maybeStressed(func() {
+		cov = bracket(func() {
+			defer func() { panicked = recover() }()
+			render = run()
+		}, dumpDir)
+	})
 	if panicked != nil {
 		return "panic " + strings.ReplaceAll(fmt.Sprint(panicked), "\n", " ")
 	}
